@@ -8,6 +8,7 @@ import (
 	"os"
 	"path/filepath"
 	"regexp"
+	"sort"
 	"strconv"
 	"strings"
 
@@ -72,12 +73,8 @@ func parserRequestURL(c *Client, req *Request) error {
 	}
 
 	// Set path parameters from the request and client.
-	req.path.VisitAll(func(key, val string) {
-		uri = strings.ReplaceAll(uri, ":"+key, val)
-	})
-	c.path.VisitAll(func(key, val string) {
-		uri = strings.ReplaceAll(uri, ":"+key, val)
-	})
+	uri = replacePathParams(uri, req.path)
+	uri = replacePathParams(uri, c.path)
 
 	// Set the URI in the raw request.
 	req.RawRequest.SetRequestURI(uri)
@@ -101,6 +98,32 @@ func parserRequestURL(c *Client, req *Request) error {
 	req.RawRequest.URI().SetHash(hashSplit[1])
 
 	return nil
+}
+
+// replacePathParams substitutes the ":key" placeholders of uri. The keys are taken longest first
+// (equal lengths in lexical order) and not in map order: with the keys "id" and "idx" the placeholder
+// ":idx" belongs to "idx", and the result does not change from one call to the next.
+func replacePathParams(uri string, params *PathParam) string {
+	if params == nil || len(*params) == 0 {
+		return uri
+	}
+
+	keys := make([]string, 0, len(*params))
+	for key := range *params {
+		keys = append(keys, key)
+	}
+	sort.Slice(keys, func(i, j int) bool {
+		if len(keys[i]) != len(keys[j]) {
+			return len(keys[i]) > len(keys[j])
+		}
+		return keys[i] < keys[j]
+	})
+
+	for _, key := range keys {
+		uri = strings.ReplaceAll(uri, ":"+key, (*params)[key])
+	}
+
+	return uri
 }
 
 // parserRequestHeader merges client and request headers, and sets headers automatically based on the request data.
